@@ -6,6 +6,7 @@
    (None = an exception, or a while loop out of the fuel the translator gave it).  A function the translator
    refused is regenerated as the hand model itself (its theorems here then say nothing beyond Props/C12.v;
    harness/c12.py reports which functions that is).
+     gen_Primitive_seq name args ret              Primitive.__init__: the format string stored in self.seq
      gen_Primitive_format / gen_Terminal_format   the two format methods, over the attributes seq / conv_fct, value
      gen_format                                   fixed text: method dispatch on the node object
      gen_str ps t                                 PrimitiveTree.__str__ (ps holds Terminal.value of the argument terminals)
@@ -21,17 +22,25 @@ Local Open Scope string_scope.
 
 (* ---- the source text is the model: for all arguments ---- *)
 Theorem C12_gen_source_is_model :
-  (forall s args, gen_Primitive_format s args = seq_format s args) /\
+  (forall name a r, gen_Primitive_seq name a r = Some (prim_seq name (List.length a))) /\
+  (forall s args, gen_Primitive_format s args = tpl_format s args) /\
   (forall f v, gen_Terminal_format f v = apply_conv f v) /\
   (forall ps n args, arity_matches (List.length args) n = true -> gen_format ps n args = Some (fmt ps n args)) /\
   (forall ps t, gen_str ps t = Some (str_tree ps t)) /\
   (forall sub s ps, gen_from_string sub s ps = read sub (ps_mapping ps) s) /\
-  (forall t ps, gen_compile_code t ps = Some (code_of ps t)) /\
+  (exists sep, header_sep sep /\ forall t ps, gen_compile_code t ps = Some (code_with sep ps t)) /\
   (forall ps kargs, gen_renameArguments ps kargs = rename kargs ps) /\
   (forall V (cval : cst -> option V) defs,
      flat (gen_compileADF cval (map d_tree defs) (map fp_of defs)) = compile_adf cval defs).
 Proof. exact source_is_model. Qed.
 Print Assumptions C12_gen_source_is_model.
+
+(* str.format on the format string Primitive.__init__ builds now: name(a1, ..., an) with ", " between the arguments *)
+Theorem C12_gen_prim_format : forall name a r args s, List.length args = List.length a ->
+  gen_Primitive_seq name a r = Some s ->
+  gen_Primitive_format s args = Some (name ++ "(" ++ String.concat ", " args ++ ")").
+Proof. exact gen_prim_format. Qed.
+Print Assumptions C12_gen_prim_format.
 
 (* the model's compile is a function of the code string and the parameter list only *)
 Theorem C12_gen_compile_of_code : forall V (cval : cst -> option V) ps ps' ctx t t',
@@ -67,14 +76,14 @@ Theorem C12_gen_read_print : forall sub ps t tr,
 Proof. exact gen_read_print. Qed.
 Print Assumptions C12_gen_read_print.
 
-(* ---- the code string compile builds now: "lambda a,b: " in front of the printed tree, which parses to the
-   call expression of the tree's shape ---- *)
+(* ---- the code string compile builds now: "lambda a,b: " (parameters joined by "," or ", ": header_sep) in front
+   of the printed tree, which parses to the call expression of the tree's shape ---- *)
 Theorem C12_gen_code_is_expr : forall ps t tr, parse t = Some tr -> all_nodes (node_ok ps) tr ->
-  exists s, gen_str ps t = Some s /\ parse_expr s = Some (expr_of ps tr) /\
+  exists s sep, gen_str ps t = Some s /\ parse_expr s = Some (expr_of ps tr) /\ header_sep sep /\
     gen_compile_code t ps =
     Some (match ps_arguments ps with
           | [] => s
-          | params => String.append "lambda " (String.append (String.concat "," params) (String.append ": " s))
+          | params => String.append "lambda " (String.append (String.concat sep params) (String.append ": " s))
           end).
 Proof. exact gen_code_is_expr. Qed.
 Print Assumptions C12_gen_code_is_expr.
